@@ -2,7 +2,7 @@ import JenVerif.Registry
 import JenVerif.Lit
 /-
   Null-ness and the renderer (jen/group.go, statement.go, tokens.go, dict.go, tag.go, comments.go)
-  on the repaired tree: nil items are null everywhere (D4), a case-block's braces are dropped
+  on the repaired tree: nil items are null everywhere (D4, D15), a case-block's braces are dropped
   locally instead of in place (D5), Dict keeps pairs with equal key text apart (D6).
 
   `renderS` is the *stateful* renderer: it threads the file (import registry) exactly like the
@@ -221,13 +221,19 @@ def dictPairsP (cfg : Cfg) (e : Env) : List (Code × Code) → List (Str × Str)
     dictTextsP (isNull e.np k) (isNull e.np v) (renderP cfg e none k) (renderP cfg e none v) (dictPairsP cfg e ps)
 end
 
+/-- number of items of a list that render something (jen/group.go `countItems`, D15 repair) -/
+def countKept (np : Str → Bool) : List Code → Nat
+  | [] => 0
+  | c :: cs => (if isNull np c then 0 else 1) + countKept np cs
+
 mutual
 /-- does rendering reach the documented misuse "Dict beside other items in Values"
-    (jen/group.go:101-105; an error after the D10 repair) -/
+    (jen/group.go `renderItems`; an error after the D10 repair; only items that render
+    something count as "other items" after the D15 repair) -/
 def misuse (np : Str → Bool) : Code → Bool
   | .group g items =>
     if g.name == b!"types" && allNull np items then false
-    else misuseItems np (g.name == b!"values" && items.length > 1) items
+    else misuseItems np (g.name == b!"values" && countKept np items > 1) items
   | .stmt items => misuseList np items
   | .dict ps => misusePairs np ps
   | _ => false
